@@ -2,6 +2,7 @@
 from __future__ import annotations
 
 import ast
+import copy
 from typing import Dict, List, Optional, Tuple
 
 from ..model import AnalysisError, NotLiteral, walk_no_nested, params_of
@@ -464,7 +465,25 @@ def reader_slots(ctx, cq: str, n_comma: int):
         return (parent, idx)
 
     out = {}
+    # a field value named first in another block (inside a try, before the dict is built) is read through its one definition
+    stores_ = {}
+    for nd in ast.walk(fn.node):
+        if isinstance(nd, ast.Name) and isinstance(nd.ctx, (ast.Store, ast.Del)):
+            stores_[nd.id] = stores_.get(nd.id, 0) + 1
+    onedef = {nd.targets[0].id: nd.value for nd in ast.walk(fn.node) if isinstance(nd, ast.Assign) and len(nd.targets) == 1 and
+              isinstance(nd.targets[0], ast.Name) and stores_.get(nd.targets[0].id) == 1 and nd.targets[0].id not in arrays}
+
+    class _In(ast.NodeTransformer):
+        def __init__(self, d):
+            self.d = d
+
+        def visit_Name(self, n):
+            if isinstance(n.ctx, ast.Load) and n.id in onedef and self.d > 0:
+                return _In(self.d - 1).visit(copy.deepcopy(onedef[n.id]))
+            return n
     for f, e in C.dict_call_kwargs(dnode.value).items():
+        e = _In(3).visit(copy.deepcopy(e))
+        ast.fix_missing_locations(e)
         try:
             if isinstance(e, ast.BinOp) and isinstance(e.op, ast.Sub):
                 la, lo = C.chain(e.left, lambda x: coord_of(x) is not None, res)
@@ -638,6 +657,13 @@ def rule_r3(ctx) -> List[R.Inst]:
                 cur = parents[id(cur)]
                 if isinstance(cur, (ast.IfExp, ast.If)) and any(isinstance(x, ast.Call) and call_name(x) == "len" and x.args and
                                                                 unparse(x.args[0]) == sb.value.id for x in ast.walk(cur.test)):
+                    guarded = True
+                    break
+                # the same test spelled as the truth of the tail slice: `fields[4:]` is empty exactly when there is no field 4
+                if isinstance(cur, (ast.IfExp, ast.If)) and any(
+                        isinstance(x, ast.Subscript) and isinstance(x.slice, ast.Slice) and unparse(x.value) == sb.value.id and x.slice.upper is None and
+                        x.slice.step is None and isinstance(x.slice.lower, ast.Constant) and isinstance(sb.slice, ast.Constant) and
+                        x.slice.lower.value == sb.slice.value for x in ast.walk(cur.test)):
                     guarded = True
                     break
             if not guarded:
